@@ -308,7 +308,7 @@ def run(ctx):
         "ChoosePattern": [len(cases) - len(by_class.get("real", []))] * 2,
         "ChooseReal": [len(by_class.get("real", []))] * 2,
     }
-    ctx.add_tlc(res, "exhaustive table machine", {"MaxRestr": mr, "Modes": ["full", "geom", "real"], "Wide": wide, "configurations": {"full": 6, "geom": len(set(repr(c["cfg"]) for c in by_class.get("geom", []))), "real": len(by_class.get("real", []))}})
+    ctx.add_tlc(res, "exhaustive table machine", {"MaxRestr": mr, "Modes": ["full", "geom", "real"], "Wide": wide, "configurations": {"full": 7, "geom": len(set(repr(c["cfg"]) for c in by_class.get("geom", []))), "real": len(by_class.get("real", []))}})
     rnd = random.Random(ctx.seed)
     singles = [c for c in cases if len(c["restr"]) == 1]
     pairs = [c for c in cases if len(c["restr"]) == 2]
@@ -404,6 +404,21 @@ def run(ctx):
     for k in ("pcm0_ss1", "pcm1_ss0"):
         if not sens.get(k) or not sens[k]["design_produced"] or not sens[k]["design_unsat"]:
             raise RuntimeError("vacuous (geometry, %s): %r" % (k, sens))
+    # empty entries: for every explicitly coded video value there must be a table whose ONLY restriction is the empty
+    # entry for that value and which (by LevelTables!ExplicitOnly, evaluated by TLC) leaves a configuration without a
+    # header although the flag and index 0 are allowed -- the case in which "empty = no value" and "empty = any value"
+    # differ.  (color_diff_format_index / source_sampling can always be had from some base format: only in pairs.)
+    empties = {}
+    for e in events:
+        c = e["_case"]
+        if c.get("explicit_only"):
+            d = empties.setdefault(e["restr"][0]["key"], {"tables": 0, "unsat": 0, "configurations": []})
+            d["tables"] += 1
+            d["unsat"] += e["outcome"] == "unsat"
+            d["configurations"].append(e["cfg"])
+    need = [k for k in c15.VP_KEYS if k not in ("top_field_first", "color_diff_format_index", "source_sampling")]
+    if [k for k in need if k not in empties]:
+        raise RuntimeError("vacuous (empty value entries): no deciding empty-entry table for %r" % [k for k in need if k not in empties])
     try:
         st = selftest_binding(cases)
     except RuntimeError as ex:
@@ -427,7 +442,7 @@ def run(ctx):
             "traces_validated_against_impl": len(events),
             "evaluations": len(events),
             "distinct_nontrivial": len(set(repr((e["cfg"], e["level"], e["restr"], e["pattern"])) for e in events if e["outcome"] == "produced")),
-            "rule": "one evaluation = one level definition (completed choice of LevelTables.tla) under which the real encoder is run and, if it produced a sequence, the real validator: (full) all single restrictions x 6 configurations x 7 ordering patterns, plus %s; (geom) %d geometry configurations (geometry x coding mode x source sampling) x every derived key x {only, except}; (real) the real level table x one feature set per level x 23 base formats x source sampling x coding mode x perturbation (admitted or not; header-only sequences); non-trivial = the encoder produced a sequence (the antecedent of the property holds)" % (pair_note, len(set(e["cfg"] for e in events if e["class"] == "geom"))),
+            "rule": "one evaluation = one level definition (completed choice of LevelTables.tla) under which the real encoder is run and, if it produced a sequence, the real validator: (full) all single restrictions (kinds incl. the EMPTY entry for every consulted key) x 7 configurations (x 7 ordering patterns, except for empty entries and the all-explicit configuration), plus %s; (geom) %d geometry configurations (geometry x coding mode x source sampling) x every derived key x {only, except}; (real) the real level table x one feature set per level x 23 base formats x source sampling x coding mode x perturbation (admitted or not; header-only sequences); non-trivial = the encoder produced a sequence (the antecedent of the property holds)" % (pair_note, len(set(e["cfg"] for e in events if e["class"] == "geom"))),
             "exhaustive": True,
             "exhaustive_note": "the TLC model is explored completely for MaxRestr=%d, Wide=%s; every single-restriction table and every real-table configuration is executed against the implementation; pairs: %s" % (mr, wide, pair_note),
             "tables": {"single": len(singles), "pairs": len(pairs), "real_table_configurations": len(reals)},
@@ -435,6 +450,7 @@ def run(ctx):
             "real_levels": dict((str(k), v) for k, v in sorted(real_levels.items())),
             "real_multi_column_levels": sorted(multi),
             "geometry_mode_sensitive_same_dimension_tables": sens,
+            "deciding_empty_value_entry_tables": empties,
             "produced": produced,
             "produced_and_accepted": accepted,
             "unsat": unsat,
